@@ -212,7 +212,7 @@ macro_rules! by_ty {
 macro_rules! toint_body {
     ($t:ty, $d:expr) => {{
         match <$t>::try_from($d) {
-            Ok(i) => format!("I {}", i),
+            Ok(i) => format!("I {}", h(i as i128)),
             Err(fpdec::TryFromDecimalError::NotAnIntValue) => "E notint".to_string(),
             Err(fpdec::TryFromDecimalError::ValueOutOfRange) => "E range".to_string(),
         }
@@ -241,7 +241,7 @@ fn perr(e: fpdec::ParseDecimalError) -> String {
         Empty => "E empty",
         Invalid => "E invalid",
         FracDigitLimitExceeded => "E fraclimit",
-        InternalOverflow => "E overflow",
+        InternalOverflow => "E poverflow",
     }
     .to_string()
 }
@@ -253,7 +253,7 @@ fn hash_of<T: std::hash::Hash>(t: &T) -> u64 {
     s.finish()
 }
 
-fn un(op: &str, d: Decimal, a: &[&str]) -> String {
+fn un(op: &str, ty: &str, d: Decimal, a: &[&str]) -> String {
     match op {
         "round" => v(d.round(a[0].parse::<i8>().unwrap())),
         "cround" => o(d.checked_round(a[0].parse::<i8>().unwrap())),
@@ -264,7 +264,7 @@ fn un(op: &str, d: Decimal, a: &[&str]) -> String {
         "abs" => v(d.abs()),
         "neg" => v(-d),
         "negref" => v(-&d),
-        "mag" => format!("I {}", d.magnitude()),
+        "mag" => format!("I {}", h(d.magnitude() as i128)),
         "iszero" => b(d.eq_zero()),
         "isone" => b(d.eq_one()),
         "isneg" => b(d.is_negative()),
@@ -293,7 +293,7 @@ fn un(op: &str, d: Decimal, a: &[&str]) -> String {
         },
         "f64" => format!("F {:x}", f64::from(d).to_bits()),
         "f32" => format!("F {:x}", f32::from(d).to_bits()),
-        "toint" => match a[0] {
+        "toint" => match ty {
             "u128" => toint_body!(u128, d),
             t => by_ty!(t, toint_body, d),
         },
@@ -328,7 +328,7 @@ fn run(line: &str) -> String {
         "di" => by_ty!(ty, di_body, op, dec(a[0], a[1]), hex(a[2]), nn(3)),
         "id" => by_ty!(ty, id_body, op, hex(a[0]), dec(a[1], a[2]), nn(3)),
         "ii" => by_ty!(ty, ii_body, op, hex(a[0]), hex(a[1]), nn(2)),
-        "un" => un(op, dec(a[0], a[1]), &a[2..]),
+        "un" => un(op, ty, dec(a[0], a[1]), &a[2..]),
         "frm" => forms::run(op, ty, a),
         "cv" => match op {
             "fromint" => by_ty!(ty, fromint_body, hex(a[0])),
@@ -396,7 +396,7 @@ fn run(line: &str) -> String {
             }
         }
         "w" => match op {
-            "sdmf" => match fpdec_core::i128_shifted_div_mod_floor(hex(a[0]), a[1].parse().unwrap(), hex(a[2])) {
+            "sdmf" => match fpdec_core::i128_shifted_div_mod_floor(hex(a[0]), hex(a[1]) as u8, hex(a[2])) {
                 Some((q, r)) => format!("Q {} {}", h(q), h(r)),
                 None => "N".to_string(),
             },
@@ -405,11 +405,11 @@ fn run(line: &str) -> String {
                 None => "N".to_string(),
             },
             "divr" => format!("I {}", h(fpdec_core::i128_div_rounded(hex(a[0]), hex(a[1]), None))),
-            "sdr" => match fpdec_core::i128_shifted_div_rounded(hex(a[0]), a[1].parse().unwrap(), hex(a[2]), None) {
+            "sdr" => match fpdec_core::i128_shifted_div_rounded(hex(a[0]), hex(a[1]) as u8, hex(a[2]), None) {
                 Some(q) => format!("I {}", h(q)),
                 None => "N".to_string(),
             },
-            "mdr" => match fpdec_core::i128_mul_div_ten_pow_rounded(hex(a[0]), hex(a[1]), a[2].parse().unwrap(), None) {
+            "mdr" => match fpdec_core::i128_mul_div_ten_pow_rounded(hex(a[0]), hex(a[1]), hex(a[2]) as u8, None) {
                 Some(q) => format!("I {}", h(q)),
                 None => "N".to_string(),
             },
@@ -417,7 +417,7 @@ fn run(line: &str) -> String {
                 let (q, r) = fpdec_core::i128_div_mod_floor(hex(a[0]), hex(a[1]));
                 format!("Q {} {}", h(q), h(r))
             }
-            "mag" => format!("I {}", fpdec_core::i128_magnitude(hex(a[0]))),
+            "mag" => format!("I {}", h(fpdec_core::i128_magnitude(hex(a[0])) as i128)),
             "tenpow" => format!("I {}", h(fpdec_core::ten_pow(a[0].parse().unwrap()))),
             "mpt" => format!("I {}", h(fpdec_core::mul_pow_ten(hex(a[0]), a[1].parse().unwrap()))),
             "cmpt" => match fpdec_core::checked_mul_pow_ten(hex(a[0]), a[1].parse().unwrap()) {
